@@ -1,6 +1,10 @@
 SPEC = {'id': 'C08',
  'manifest': {'technique': 'Coq proof of buffer-pool non-interference over all interleavings of a heap/alias model + data-race discipline check over '
                            'the regenerated access table + tagged-stream stress run (with -race in thorough)',
-              'level_text': 'pool_noninterference for the server.handle lifecycle over all interleavings; discipline_holds over gen/Access.v '
-                            '(regenerated from the source each run); stress engine with self-identifying streams.',
-              'level_note': 'The access-table extraction (l4gen) is trusted; the Go memory model is abstracted to atomic/plain accesses.'}}
+              'level_text': 'pool_noninterference for every lifecycle discipline that never returns a live buffer (server.handle, listener.handle, '
+                            'tee branch as l4gen reads them from the source), the same for the UDP datagram pool and the packet hand-over '
+                            '(udp_pool_noninterference), discipline_sound/complete and discipline_holds over gen/Access.v minus exactly the recorded '
+                            'race findings; lock-step pool engine (pool choices observed by base pointer, replayed on the model), stress with '
+                            'self-identifying streams, tee, UDP; -race run in the thorough tier.',
+              'level_note': 'The access-table extraction (l4gen) is trusted and validated dynamically by the race detector; the Go memory model is '
+                            'abstracted to atomic/plain accesses; two recorded race findings are exempted by name.'}}
